@@ -30,7 +30,10 @@ document level (extra_checks, stream `pair`)
   also processed ALONE in its own fresh subprocess; three entry points: TeX.input/parse, the same plus Renderer.render,
   and plasTeX.Compile.run on a file (what the `plastex` command calls); documents are projects (main.tex plus the files it reads by
   relative name: \\input files, a local .sty, an image, main.aux/main.bbl for natbib, the same names in every project); around EVERY document
-  every data attribute of every plasTeX class and every plasTeX module global is snapshotted: none may change (class_state); canonicalised toXML() (generated ids renumbered),
+  every data attribute of every plasTeX class and every plasTeX module global is snapshotted: none may change (class_state);
+  vocabulary sweep: every built-in command/environment (with arguments fitting its signature) once in its own document, the same snapshot
+  around it (a sample of 220 in the quick tier, all ~1150 in the thorough tier); documents also contain TeX conditionals and switch setters
+  (\\ifpdf/\\pdftrue/\\pdffalse, \\newif switches, ifthen booleans, \\ifx/\\ifnum/\\ifdim/\\ifcase/\\ifmmode); canonicalised toXML() (generated ids renumbered),
   rendered HTML5 files for a part of the histories, and the class-attribute snapshot are compared.
 """
 import os, sys, re, json, logging, subprocess, tempfile, shutil, random as _random
@@ -277,6 +280,10 @@ def worker_main():
             base = next_id()
             res.append(run_event_doc(words, base))
         print(json.dumps(res))
+    elif job['kind'] == 'vocabnames':
+        print(json.dumps(vocab_names()))
+    elif job['kind'] == 'vocab':
+        print(json.dumps(run_vocab(job['names'], job.get('bits', '00000'))))
     elif job['kind'] == 'latex':
         res = []
         for d in job['docs']:
@@ -1179,6 +1186,122 @@ def class_state_diff(before, after, bits):
             if k in after and before[k] != after[k] and not class_state_allowed(k, bits)]
 
 
+# ---------------------------------------------------------------- vocabulary sweep: every built-in command and environment once
+
+VOCAB_PKGS = ['ifthen', 'amsmath', 'graphicx', 'color', 'longtable', 'natbib', 'hyperref', 'makeidx', 'array', 'verbatim', 'float', 'subfigure', 'url', 'calc']
+
+
+def vocab_names():
+    """names of all macros a document sees with the usual packages loaded (sorted: the choice depends on the seed only)"""
+    from plasTeX.TeX import TeX
+    doc, _ = new_document()
+    tex = TeX(doc)
+    tex.input('\\documentclass{book}' + ''.join('\\usepackage{%s}' % p for p in VOCAB_PKGS))
+    tex.parse()
+    return sorted(k for k in doc.context.contexts[0].keys() if isinstance(k, str) and k.isalpha())
+
+
+def vocab_args(cls):
+    """actual arguments that fit the declared signature: a control sequence for :cs, a number/dimension for the TeX types, no optionals"""
+    out, optional = [], False
+    for w in str(getattr(cls, 'args', '') or '').split():
+        if w in ('[', '(', '<'):
+            optional = True
+        elif w in (']', ')', '>'):
+            optional = False
+        elif optional or w == '*':
+            continue
+        elif w == '=':
+            out.append('=')
+        elif ':cs' in w or ':Tok' in w or ':XTok' in w:
+            out.append('\\vfz ')
+        elif ':Number' in w or ':Int' in w:
+            out.append('1 ')
+        elif ':Dimen' in w or ':Glue' in w:
+            out.append('1pt ')
+        elif ':MuDimen' in w or ':MuGlue' in w:
+            out.append('1mu ')
+        elif ':Args' in w:
+            out.append('#1')
+        elif ':int' in w or ':float' in w:
+            out.append('{1}')
+        elif ':dimen' in w:
+            out.append('{1pt}')
+        else:
+            out.append('{a}')
+    return ''.join(out)
+
+
+def run_vocab(names, bits):
+    """each command (environment) once in its own small document, with the class/module snapshot around it"""
+    import signal
+    from plasTeX.TeX import TeX
+    from plasTeX import Environment
+
+    def alarm(*a):
+        raise TimeoutError()
+    old = signal.signal(signal.SIGALRM, alarm)
+    out = {}
+    pre = '\\documentclass{book}' + ''.join('\\usepackage{%s}' % p for p in VOCAB_PKGS) + '\\begin{document}\\begingroup x '
+    before = class_state()
+    cwd = os.getcwd()
+    d = tempfile.mkdtemp(prefix='c17v-')
+    try:
+        os.chdir(d)
+        for n in names:
+            doc, _ = new_document()
+            tex = TeX(doc)
+            cls = doc.context.contexts[0].get(n)
+            try:
+                isenv = isinstance(cls, type) and issubclass(cls, Environment)
+            except Exception:
+                isenv = False
+            a = vocab_args(cls) if isinstance(cls, type) else ''
+            body = '\\begin{%s}%s c \\end{%s}' % (n, a, n) if isenv else '\\%s%s' % (n, a)
+            tex.input(pre + body + ' y\\endgroup z\\end{document}')
+            err = None
+            signal.alarm(10)
+            try:
+                tex.parse()
+                doc.toXML()
+            except TimeoutError:
+                err = 'timeout'
+            except Exception as e:
+                err = type(e).__name__
+            finally:
+                signal.alarm(0)
+            if err:        # not processed to completion: outside the property; put the listed switches back and take a new baseline
+                set_state(['I'])
+                before = class_state()
+                continue
+            after = class_state()
+            diff = class_state_diff(before, after, bits)
+            if diff:
+                out[n] = diff[:4]
+            before = after
+    finally:
+        signal.signal(signal.SIGALRM, old)
+        os.chdir(cwd)
+        shutil.rmtree(d, ignore_errors=True)
+    return out
+
+
+VOCAB_SKIP = {'today', 'year', 'month', 'day', 'time', 'currenttime'}      # read the clock: not interpreter state
+
+
+def vocab_checks(ctx, rng):
+    """no built-in command, whatever it does, may change a class attribute or module global (apart from the known findings)"""
+    bits = variant_bits()
+    names = [n for n in run_worker({'kind': 'vocabnames'}) if n not in VOCAB_SKIP]
+    sample = names if ctx.tier != 'quick' else sorted(rng.sample(names, min(len(names), 220)))
+    res = run_worker({'kind': 'vocab', 'names': sample, 'bits': bits}, timeout=1500)
+    viol = []
+    for n in sorted(res):
+        viol.append(Violation('vocabulary sweep: \\%s changes interpreter-wide state (class attributes / module globals): %s' % (n, ' ; '.join(res[n])),
+                              {'kind': 'failing-input', 'extra': {'stream': 'vocab', 'names': [n]}, 'why': res[n]}))
+    return viol, {'evaluations': len(sample), 'vocabulary': len(names)}
+
+
 FILE_MARK = '%%C17FILE '
 
 
@@ -1304,7 +1427,8 @@ class LatexGen:
 
     def inline(self, depth=0):
         r = self.rng.random()
-        if r < 0.30: return self.w()
+        if r < 0.26: return self.w()
+        if r < 0.30: return self.switch()
         if r < 0.42: return '$%s$' % self.math()
         if r < 0.47: return '\\(%s\\)' % self.math()
         if r < 0.52: return '\\emph{%s}' % self.w()
@@ -1330,6 +1454,21 @@ class LatexGen:
             return '\\%s=\\%s\\relax ' % (REGS[self.rng.choice(fam)], REGS[self.rng.choice(fam)])
         if r < 0.97 and self.leaky: return '\\vskip\\parindent\\relax\\parindent=2\\parindent\\relax '
         return self.w()
+
+    def switch(self):
+        """TeX conditionals and the commands that set the switches they read: built-in switches (\\ifpdf with \\pdftrue/\\pdffalse),
+        switches the document declares itself (\\newif, ifthen booleans), mode/number/dimension/token tests"""
+        rng, a, b = self.rng, self.w(), self.w()
+        k = 'abc'[rng.randrange(3)]
+        return rng.choice([
+            '\\ifpdf %s\\else %s\\fi ' % (a, b), '\\ifpdf %s\\else %s\\fi ' % (a, b), '\\pdftrue ', '\\pdffalse ',
+            '\\ifx\\pdfoutput\\undefined %s\\else %s\\pdftrue\\fi ' % (a, b),
+            '\\newif\\ifzz%s \\zz%strue \\ifzz%s %s\\else %s\\fi ' % (k, k, k, a, b), '\\ifzz%s %s\\else %s\\fi ' % (k, a, b), '\\zz%sfalse ' % k,
+            '\\ifmmode %s\\else %s\\fi ' % (a, b), '\\ifnum\\value{mycnt}>1\\relax %s\\else %s\\fi ' % (a, b), '\\ifodd %d\\relax %s\\else %s\\fi ' % (rng.randint(0, 9), a, b),
+            '\\ifdim\\parindent>5pt\\relax %s\\else %s\\fi ' % (a, b), '\\ifcase %d\\relax %s\\or %s\\else many\\fi ' % (rng.randint(0, 3), a, b),
+            '\\iftrue %s\\else %s\\fi ' % (a, b), '\\ifx\\mycmd\\undefinedcs %s\\else %s\\fi ' % (a, b),
+            '\\provideboolean{bz%s}\\setboolean{bz%s}{%s}\\ifthenelse{\\boolean{bz%s}}{%s}{%s}' % (k, k, rng.choice(['true', 'false']), k, a, b),
+            '\\ifthenelse{\\isundefined{\\zz%strue}}{%s}{%s}' % (k, a, b)])
 
     def para(self):
         return ' '.join(self.inline() for _ in range(self.rng.randint(2, 7)))
@@ -1563,7 +1702,7 @@ def dense_project(tag, year):
         'main.bbl': '\\begin{thebibliography}{1}\n\\bibitem[Author%s(%d)]{N1}\nAuthor%s.\n\\newblock Title %s.\n\\end{thebibliography}\n' % (tag, year, tag, tag),
     }
     main = ('\\documentclass{article}\n\\usepackage{ifthen}\\usepackage{natbib}\\usepackage{graphicx}\\usepackage{longtable}\\usepackage{amsmath}\\usepackage{mystyle}\n'
-            '\\newcommand{\\mycmd}[1]{[#1]}\\newcounter{mycnt}\n\\begin{document}\n\\section{One %s}\\label{L0}\n\\input{intro}\nProject \\projname, see \\ref{L1} and \\ref{E2}.\n'
+            '\\newcommand{\\mycmd}[1]{[#1]}\\newcounter{mycnt}\n' + ('\\pdftrue ' if tag == 'Alpha' else '') + '\\begin{document}\n\\section{One %s}\\label{L0}\n\\input{intro}\nFormat \\ifpdf PDF\\else EPS\\fi. Project \\projname, see \\ref{L1} and \\ref{E2}.\n'
             'As shown by \\citet{N1}, and later \\citep{N1}.\n\n\\includegraphics{fig}\n\n'
             '\\begin{eqnarray}a & = & b \\label{E1} \\\\ c & = & d \\label{E2}\\end{eqnarray}\n\\begin{eqnarray*}x & = & y\\end{eqnarray*}\n'
             '\\begin{align}a &= b \\\\ c &= d\\end{align}\n'
@@ -1589,10 +1728,17 @@ def extra_checks(ctx):
     rng = _random.Random(ctx.seed * 13 + 5)
     n, nr = (70, 30) if ctx.tier == 'quick' else (700, 300)
     viol, stats = pair_checks(ctx, rng, n, nr)
-    return viol, stats
+    vviol, vstats = vocab_checks(ctx, rng)
+    stats['evaluations'] += vstats['evaluations']
+    stats['vocabulary_swept'] = '%d of %d commands' % (vstats['evaluations'], vstats['vocabulary'])
+    return viol + vviol, stats
 
 
 def replay_extra(ctx, extra):
+    if extra.get('stream') == 'vocab':
+        res = run_worker({'kind': 'vocab', 'names': extra['names'], 'bits': variant_bits()})
+        print('replay vocab:', res or 'holds')
+        return bool(res)
     init_snap = snap_str(K()['init']) + ' ' + PROC0
     why, det = check_history(extra['documents'], extra.get('render', False), init_snap)
     print('replay pair:', why or 'holds', json.dumps(det or {})[:600])
